@@ -481,11 +481,11 @@ def run(ctx):
     jobs = []
     KL = ctx.pick(10, 16)
     for k in range(KL):
-        jobs.append({"what": "loopback", "k": k, "N": ctx.pick(6, 150)})
+        jobs.append({"what": "loopback", "k": k, "N": ctx.pick(6, 600)})
     KD = ctx.pick(2, 6)
     for k in range(KD):
         jobs.append({"what": "doubles", "k": k, "K": KD, "D": ctx.pick(4, 5)})
-    ctx.shard(jobs, timeout=ctx.pick(120, 900))
+    ctx.shard(jobs, timeout=ctx.pick(120, 1500))
     ctx.floor("loopback_cases", ctx.pick(40, 1500))
     ctx.floor("loopback_packets", ctx.pick(1500, 60000))
     ctx.floor("loopback_client_partial_sends", ctx.pick(20, 800))
